@@ -176,3 +176,55 @@ def history3_same_kind(k: int, o1: int, v1: int, n1: int, o2: int, v2: int, n2: 
         ok = run_history(steps)
     V.reached()
     return ok
+
+
+# ---------------------------------------------------------------- property naming rules: reference-named properties must be references
+REF_NAMES = ["target_ref", "src_host_ref", "x_acme_owner_ref", "a_b_c_d_ref", "target_refs", "related_host_refs", "x_acme_member_refs",       # reference-named
+             "href", "xrefs", "ref_count", "refs_seen", "x_ref_note", "preference", "x_refs_"]                                                   # not reference-named
+NREFN = len(REF_NAMES)
+
+
+def _prop_of(ti, ver, kind):
+    old_sco = ver == "2.0" and kind == "observables"
+    ref = (lambda: P.ObjectReferenceProperty(valid_types="file")) if old_sco else (lambda: P.ReferenceProperty(valid_types="identity", spec_version=ver))
+    return [lambda: P.StringProperty(), lambda: P.ListProperty(P.StringProperty), ref, lambda: P.ListProperty(ref()), lambda: P.IntegerProperty(),
+            lambda: P.ListProperty(P.IntegerProperty)][ti]()
+
+
+def ref_property_rules(ki: int, vi: int, ni: int, ti: int) -> bool:
+    """
+    pre: 0 <= ki < 4 and 0 <= vi < 2 and 0 <= ni < NREFN and 0 <= ti < 6
+    post: _
+    """
+    ki, vi, ni, ti = pick(ki, 4), pick(vi, 2), pick(ni, NREFN), pick(ti, 6)
+    with Native():
+        ok = run_ref_rule_case(ki, vi, ni, ti)
+    V.reached()
+    return ok
+
+
+def run_ref_rule_case(ki, vi, ni, ti):
+    """a property whose name ends in _ref must be a reference property and one ending in _refs a list of them (object references for 2.0
+    observables); a registration that breaks the rule is refused and leaves the registry as it was; any other name takes any property type"""
+    kind, ver, pname = KINDS[ki], VERS[vi], REF_NAMES[ni]
+    mod = stix2.v21 if ver == "2.1" else stix2.v20
+    tail = pname.split("_")[-1]
+    want_ok = (tail == "ref" and ti == 2) or (tail == "refs" and ti == 3) or tail not in ("ref", "refs")
+    deco = {"objects": mod.CustomObject, "observables": mod.CustomObservable, "markings": mod.CustomMarking, "extensions": mod.CustomExtension}[kind]
+    name = FRESH[kind][0]
+    saved = snapshot()
+    try:
+        try:
+            @deco(name, [("prop_one", P.StringProperty()), (pname, _prop_of(ti, ver, kind))])
+            class K(object):
+                pass
+            ok = True
+        except (ValueError, STIXError, TypeError):
+            ok = False
+        if ok != want_ok:
+            return False
+        if not ok and snapshot() != saved:
+            return False
+        return ok == (registry.class_for_type(name, ver, kind) is not None)
+    finally:
+        restore(saved)
